@@ -175,7 +175,7 @@ fn check_unsupported(rep: &mut Report, text: &str, why: &str) {
 }
 
 pub fn run(args: &Args, rep: &mut Report) {
-    let n = args.cases(160_000, 3_000_000);
+    let n = args.cases(1_200_000, 12_000_000);
     for k in 0..n {
         let mut cfg = GenCfg::standard(args.thorough()).rotated(k);
         // isolated single-selector rules for a third of the cases, several spellings each
